@@ -33,7 +33,8 @@ def P(level, qc, qn, qs, tc, tn, ts, shards=16, **kw):
 
 
 PLANS = {
-    "C01": P("exploration", SEM, 16000, 800, SEM + ["mid", "host-nosse"], 48000, 1500),
+    "C01": P("exploration", SEM + ["small-omp"], 16000, 800, SEM + ["mid", "host-nosse", "small-omp"], 48000, 1500,
+             env={"OMP_NUM_THREADS": "2", "OMP_WAIT_POLICY": "passive"}),
     "C02": P("exploration", SEM, 24000, 700, SEM + ["mid", "host"], 72000, 1300),
     "C03": P("exploration", SEM, 15000, 700, SEM + ["mid", "host"], 45000, 1300),
     "C04": P("exploration", SEM, 30000, 700, SEM + ["mid", "host"], 90000, 1400),
@@ -205,6 +206,8 @@ def generic_check(prop, tier, seed, plan=None, binaries=None, extra_args=None, s
     def runjob(j):
         env = san_env(j["logbase"], strict, extra_env)
         env["VF_TMP"] = rundir
+        if plan.get("env"):
+            env.update(plan["env"])
         ebs = plan.get("env_by_shard")
         if ebs:
             env.update(ebs[j["sh"] % len(ebs)])
